@@ -44,7 +44,17 @@ package migration
 //     owner of the reservation ("bound to this pod": pending-pod mode);
 //   - the clock only moves forward; a restart creates a new Reconciler (empty assumed cache) over the same
 //     API store;
-//   - a failed write leaves no trace (fail) or is fully applied (lost response); reads never fail.
+//   - a failed write leaves no trace (fail) or is fully applied (lost response); reads never fail;
+//   - the user may edit spec.paused of a job at any time (a write to the job by somebody else);
+//   - with graceful pods an evicted pod stays in the store as a terminating object (deletionTimestamp set) until
+//     the environment finishes its termination;
+//   - jobs: 1-3, possibly two jobs for the same pod (user-created jobs), podRef.uid empty / correct / stale, podRef
+//     without a name, TTL unset / explicit 0 / 1s / 15s / 1h, creationTimestamp at, before (incl. already past the
+//     TTL) or ahead of the controller's clock, initial phase "" or Pending, paused or not, reservation template
+//     with a user-chosen name; pods with or without a controller owner, with or without a PVC volume (feature gate
+//     DisablePVCReservation on/off); args.DefaultJobMode and args.DefaultDeleteOptions varied.
+// Besides every single-fault variant, six multi-fault variants per case are sampled (pairs of nearby faults, and
+// outages of three consecutive failing writes); injected errors are 500 / timeout / 409 (updates) / 429.
 //
 // Oracle (directions exactly as in the statement):
 //   - at EVERY Evict call: the job's reservation exists, is scheduled (or Preempt reported completion for
@@ -59,6 +69,7 @@ package migration
 import (
 	"context"
 	"fmt"
+	"sort"
 	"strings"
 	"sync"
 	"testing"
@@ -82,10 +93,14 @@ import (
 	"sigs.k8s.io/controller-runtime/pkg/client/interceptor"
 	"sigs.k8s.io/controller-runtime/pkg/reconcile"
 
+	"github.com/koordinator-sh/koordinator/apis/extension"
 	sev1alpha1 "github.com/koordinator-sh/koordinator/apis/scheduling/v1alpha1"
 	deschedulerconfig "github.com/koordinator-sh/koordinator/pkg/descheduler/apis/config"
 	"github.com/koordinator-sh/koordinator/pkg/descheduler/apis/config/v1alpha2"
+	"github.com/koordinator-sh/koordinator/pkg/descheduler/controllers/migration/evictor"
 	"github.com/koordinator-sh/koordinator/pkg/descheduler/controllers/migration/reservation"
+	"github.com/koordinator-sh/koordinator/pkg/features"
+	utilfeature "github.com/koordinator-sh/koordinator/pkg/util/feature"
 	kit "github.com/koordinator-sh/koordinator/pkg/verifkit"
 )
 
@@ -145,18 +160,30 @@ type c17JobCfg struct {
 	Name         string        `json:"name"`
 	PodName      string        `json:"pod"`
 	PodNode      string        `json:"pod_node"`
-	TTL          time.Duration `json:"ttl"`
-	Mode         string        `json:"spec_mode"` // spec.mode as the user wrote it: "" / ReservationFirst / EvictDirectly
+	SharedPod    bool          `json:"shares_pod_of_job0"` // this job targets the same pod as job-0 (legal for user-created jobs)
+	BarePod      bool          `json:"bare_pod"`           // the pod has no controller owner reference
+	TTLSet       bool          `json:"ttl_set"`
+	TTL          time.Duration `json:"ttl"`               // with TTLSet: 0 (explicit zero = no timeout), 1s, 15s, 1h
+	CreatedAt    time.Duration `json:"created_at_offset"` // creationTimestamp relative to the clock's start: 0, in the past, or ahead (skew)
+	Mode         string        `json:"spec_mode"`         // spec.mode as the user wrote it: "" / ReservationFirst / EvictDirectly
 	DeleteOpts   bool          `json:"spec_delete_options"`
-	PendingPod   bool          `json:"pending_pod"`      // the target pod is an unscheduled pod: reservation owner is the pod itself
-	NeedPreempt  bool          `json:"need_preemption"`  // the reservation object answers NeedPreemption()==true
-	PreemptCalls int           `json:"preempt_calls"`    // Preempt reports completion on this call
-	CreatedBy    bool          `json:"created_by_annot"` // carries AnnotationJobCreatedBy of the first reconciler
+	PodRefUID    string        `json:"pod_ref_uid"`     // "" (user job) / "correct" (as the descheduler creates them) / "stale"
+	InvalidRef   bool          `json:"invalid_pod_ref"` // podRef without a name
+	Paused       bool          `json:"paused_at_start"`
+	InitPending  bool          `json:"initial_phase_pending"`
+	EvictAnnot   bool          `json:"evict_reason_annotations"`
+	TemplateName string        `json:"reservation_template_name,omitempty"` // user-supplied reservationOptions.template with its own name
+	PendingPod   bool          `json:"pending_pod"`                         // the target pod is an unscheduled pod: reservation owner is the pod itself
+	NeedPreempt  bool          `json:"need_preemption"`                     // the reservation object answers NeedPreemption()==true
+	PreemptCalls int           `json:"preempt_calls"`                       // Preempt reports completion on this call
+	CreatedBy    bool          `json:"created_by_annot"`                    // carries AnnotationJobCreatedBy of the first reconciler
 	// real-interpreter unit only: "" = the controller creates the reservation; "name-only" / "name-uid" = the job
 	// points at a Reservation that already exists (created by the user = the environment), by name without /
-	// with its uid. UserResInit is the state that Reservation is in when the history starts.
-	UserRes     string `json:"user_supplied_ref,omitempty"`
-	UserResInit string `json:"user_reservation_init,omitempty"`
+	// with its uid. UserResInit is the state that Reservation is in when the history starts ("missing" = the
+	// reference points at nothing); UserResLabel = it already carries the reservation-order label.
+	UserRes      string `json:"user_supplied_ref,omitempty"`
+	UserResInit  string `json:"user_reservation_init,omitempty"`
+	UserResLabel bool   `json:"user_reservation_has_order_label,omitempty"`
 }
 
 type c17Cfg struct {
@@ -166,6 +193,10 @@ type c17Cfg struct {
 	// controller-wide arguments that Reconcile reads (the object limiters stay off: they read the wall clock)
 	DefaultJobMode    string `json:"args_default_job_mode"` // "" / ReservationFirst / EvictDirectly, independent of spec.mode
 	DefaultDeleteOpts bool   `json:"args_default_delete_options"`
+	GracefulPods      bool   `json:"graceful_pods"`        // an evicted/deleted pod stays as a terminating object until the environment removes it
+	PVCPods           bool   `json:"pods_with_pvc_volume"` // pods carry a PVC volume (read by CreateOrUpdateReservationOptions)
+	DisablePVCGate    bool   `json:"gate_DisablePVCReservation"`
+	LongHistory       bool   `json:"long_history"`
 }
 
 func c17PickMode(r *kit.Rand, empty, rf, direct int) string {
@@ -186,66 +217,67 @@ func c17ReservationFirst(specMode, defaultMode string) bool {
 
 // c17GenCfgReal: configuration of a case of the real-interpreter unit (no preemption: the shipped
 // interpreter has none; TTLs are common because TTL clean-up through the real DeleteReservation is the point).
-func c17GenCfgReal(r *kit.Rand) *c17Cfg {
-	cfg := &c17Cfg{Real: true, DefaultJobMode: c17PickMode(r, 20, 50, 30), DefaultDeleteOpts: r.Pct(30)}
-	n := 1
-	if r.Pct(40) {
-		n = 2
-	}
-	for i := 0; i < n; i++ {
-		j := c17JobCfg{
-			Name:       fmt.Sprintf("job-%d", i),
-			PodName:    fmt.Sprintf("pod-%d", i),
-			PodNode:    kit.Pick(r, c17Nodes),
-			Mode:       c17PickMode(r, 38, 50, 12),
-			DeleteOpts: r.Pct(20),
-			PendingPod: r.Pct(8),
-		}
-		switch r.Weighted(15, 55, 30) {
-		case 1:
-			j.TTL = c17TTLShort
-		case 2:
-			j.TTL = c17TTLLong
-		}
-		switch r.Weighted(35, 40, 25) {
-		case 1:
-			j.UserRes = "name-only"
-		case 2:
-			j.UserRes = "name-uid"
-		}
-		if j.UserRes != "" {
-			j.UserResInit = kit.Pick(r, []string{"pending", "pending", "pending", "pending", "scheduled-other", "scheduled-other", "scheduled-same"})
-		}
-		cfg.Jobs = append(cfg.Jobs, j)
-	}
-	return cfg
-}
+func c17GenCfgReal(r *kit.Rand) *c17Cfg { return c17GenCfgFor(r, true) }
 
-func c17GenCfg(r *kit.Rand) *c17Cfg {
-	cfg := &c17Cfg{Preemption: r.Pct(25), DefaultJobMode: c17PickMode(r, 20, 50, 30), DefaultDeleteOpts: r.Pct(30)}
-	n := 1
-	if r.Pct(40) {
-		n = 2
-	}
+func c17GenCfg(r *kit.Rand) *c17Cfg { return c17GenCfgFor(r, false) }
+
+func c17GenCfgFor(r *kit.Rand, real bool) *c17Cfg {
+	cfg := &c17Cfg{Real: real, Preemption: !real && r.Pct(25), DefaultJobMode: c17PickMode(r, 20, 50, 30), DefaultDeleteOpts: r.Pct(30),
+		GracefulPods: r.Pct(50), PVCPods: r.Pct(20), DisablePVCGate: r.Pct(20), LongHistory: r.Pct(5)}
+	n := 1 + r.Weighted(55, 35, 10)
 	for i := 0; i < n; i++ {
 		j := c17JobCfg{
-			Name:       fmt.Sprintf("job-%d", i),
-			PodName:    fmt.Sprintf("pod-%d", i),
-			PodNode:    kit.Pick(r, c17Nodes),
-			Mode:       c17PickMode(r, 38, 50, 12),
-			DeleteOpts: r.Pct(20),
-			PendingPod: r.Pct(12),
-			CreatedBy:  r.Pct(8),
+			Name:        fmt.Sprintf("job-%d", i),
+			PodName:     fmt.Sprintf("pod-%d", i),
+			PodNode:     kit.Pick(r, c17Nodes),
+			BarePod:     r.Pct(10),
+			Mode:        c17PickMode(r, 38, 50, 12),
+			DeleteOpts:  r.Pct(20),
+			PendingPod:  r.Pct(10),
+			CreatedBy:   r.Pct(8),
+			InvalidRef:  r.Pct(3),
+			Paused:      r.Pct(8),
+			InitPending: r.Pct(15),
+			EvictAnnot:  r.Pct(20),
+			PodRefUID:   []string{"", "correct", "stale"}[r.Weighted(60, 30, 10)],
+			CreatedAt:   []time.Duration{0, -10 * time.Second, -2 * time.Hour, 30 * time.Second}[r.Weighted(80, 7, 5, 8)],
 		}
-		switch r.Weighted(40, 35, 25) {
+		if i > 0 && r.Pct(15) {
+			j0 := cfg.Jobs[0]
+			j.SharedPod, j.PodName, j.PodNode, j.PendingPod, j.BarePod = true, j0.PodName, j0.PodNode, j0.PendingPod, j0.BarePod
+		}
+		ttlW := []int{35, 5, 5, 32, 23} // unset, explicit 0, 1s, 15s, 1h
+		if real {
+			ttlW = []int{12, 4, 6, 50, 28}
+		}
+		switch r.Weighted(ttlW...) {
 		case 1:
-			j.TTL = c17TTLShort
+			j.TTLSet = true
 		case 2:
-			j.TTL = c17TTLLong
+			j.TTLSet, j.TTL = true, time.Second
+		case 3:
+			j.TTLSet, j.TTL = true, c17TTLShort
+		case 4:
+			j.TTLSet, j.TTL = true, c17TTLLong
 		}
 		if cfg.Preemption && r.Pct(70) {
 			j.NeedPreempt = true
 			j.PreemptCalls = r.Range(1, 3)
+		}
+		if real {
+			switch r.Weighted(35, 40, 25) {
+			case 1:
+				j.UserRes = "name-only"
+			case 2:
+				j.UserRes = "name-uid"
+			}
+			if j.UserRes != "" {
+				j.UserResInit = []string{"pending", "scheduled-other", "scheduled-same", "bound-other", "expired", "missing"}[r.Weighted(50, 22, 10, 6, 6, 6)]
+				j.UserResLabel = r.Pct(30)
+			}
+		}
+		if j.UserRes == "" && r.Pct(15) {
+			j.TemplateName = "custom-res-" + j.Name
 		}
 		cfg.Jobs = append(cfg.Jobs, j)
 	}
@@ -283,6 +315,7 @@ type c17Res struct {
 	msg      string
 	attempts int
 	need     bool
+	nocond   bool // scheduled (node assigned, phase Available) but the Scheduled condition is not published
 }
 
 func (e *c17Res) live() bool { return e != nil && e.state != c17ResDeleted }
@@ -330,6 +363,9 @@ func (e *c17Res) render() *sev1alpha1.Reservation {
 		r.Status.NodeName = e.node
 		r.Status.Conditions = []sev1alpha1.ReservationCondition{schedTrue,
 			{Type: sev1alpha1.ReservationConditionReady, Status: sev1alpha1.ConditionStatusTrue, Reason: sev1alpha1.ReasonReservationAvailable}}
+		if e.nocond {
+			r.Status.Conditions = r.Status.Conditions[1:]
+		}
 	case c17ResBound:
 		r.Status.Phase = sev1alpha1.ReservationSucceeded
 		r.Status.NodeName = e.node
@@ -445,6 +481,7 @@ type c17Job struct {
 	preemptDone     bool
 	afterTerminal   int
 	attempts        int
+	created         time.Time
 	rf              bool // reservation-first by the documented rule (c17ReservationFirst), not by the controller's code
 }
 
@@ -474,8 +511,9 @@ type c17World struct {
 	jobs    []*c17Job
 	podGen  map[string]int
 
-	faultAt         int
+	faultAt         int // index of the first injected fault (0 = fault-free history)
 	faultKind       c17Fault
+	faults          map[int]c17Fault // every injected fault by write index (single-fault variants: one entry)
 	faultHit        bool
 	faultDesc       string
 	faultAfterEvict bool
@@ -537,12 +575,33 @@ func c17Variant(f func()) (aborted bool) {
 }
 
 func c17NewWorld(c *kit.Case, cfg *c17Cfg, faultAt int, kind c17Fault) *c17World {
-	c17Setup()
-	w := &c17World{c: c, cfg: cfg, ctx: context.Background(), faultAt: faultAt, faultKind: kind, podGen: map[string]int{}, real: cfg.Real}
 	if faultAt == 0 {
+		return c17NewWorldFaults(c, cfg, nil)
+	}
+	return c17NewWorldFaults(c, cfg, map[int]c17Fault{faultAt: kind})
+}
+
+func c17NewWorldFaults(c *kit.Case, cfg *c17Cfg, faults map[int]c17Fault) *c17World {
+	c17Setup()
+	w := &c17World{c: c, cfg: cfg, ctx: context.Background(), faults: faults, podGen: map[string]int{}, real: cfg.Real}
+	if len(faults) == 0 {
 		w.label = "fault-free"
 	} else {
-		w.label = fmt.Sprintf("fault %s at write #%d", kind, faultAt)
+		var ks []int
+		for k := range faults {
+			ks = append(ks, k)
+		}
+		sort.Ints(ks)
+		w.faultAt, w.faultKind = ks[0], faults[ks[0]]
+		var parts []string
+		for _, k := range ks {
+			parts = append(parts, fmt.Sprintf("%s at write #%d", faults[k], k))
+		}
+		w.label = "fault " + strings.Join(parts, " + ")
+	}
+	// process-global feature gate read by reservation.CreateOrUpdateReservationOptions: set explicitly per world
+	if err := utilfeature.DefaultMutableFeatureGate.SetFromMap(map[string]bool{string(features.DisablePVCReservation): cfg.DisablePVCGate}); err != nil {
+		c.Harness("feature gate: %v", err)
 	}
 	w.tracker = k8stesting.NewObjectTracker(c17Scheme, c17Codecs.UniversalDecoder())
 	w.store = fake.NewClientBuilder().WithStatusSubresource(&sev1alpha1.PodMigrationJob{}).WithScheme(c17Scheme).WithObjectTracker(w.tracker).Build()
@@ -551,33 +610,57 @@ func c17NewWorld(c *kit.Case, cfg *c17Cfg, faultAt int, kind c17Fault) *c17World
 	for i := range cfg.Jobs {
 		jc := &cfg.Jobs[i]
 		j := &c17Job{cfg: jc, idx: i, key: types.NamespacedName{Name: jc.Name}, uid: types.UID(jc.Name + "-uid")}
-		pod := w.makePod(jc, jc.PodNode, jc.PendingPod)
-		j.podUID = pod.UID
-		if err := w.store.Create(w.ctx, pod); err != nil {
-			c.Harness("create pod: %v", err)
+		j.created = c17T0.Add(jc.CreatedAt)
+		pod := w.storedPod(j)
+		if pod == nil { // (a job sharing job-0's pod finds it there)
+			pod = w.makePod(jc, jc.PodNode, jc.PendingPod)
+			if err := w.store.Create(w.ctx, pod); err != nil {
+				c.Harness("create pod: %v", err)
+			}
 		}
+		j.podUID = pod.UID
 		job := &sev1alpha1.PodMigrationJob{
-			ObjectMeta: metav1.ObjectMeta{Name: jc.Name, UID: j.uid, CreationTimestamp: metav1.NewTime(c17T0)},
+			ObjectMeta: metav1.ObjectMeta{Name: jc.Name, UID: j.uid, CreationTimestamp: metav1.NewTime(j.created)},
 			Spec: sev1alpha1.PodMigrationJobSpec{
+				Paused: jc.Paused,
 				PodRef: &corev1.ObjectReference{Namespace: "default", Name: jc.PodName},
 			},
+		}
+		switch jc.PodRefUID {
+		case "correct":
+			job.Spec.PodRef.UID = pod.UID
+		case "stale":
+			job.Spec.PodRef.UID = types.UID(jc.PodName + "-u0") // a pod of that name that is long gone
+		}
+		if jc.InvalidRef {
+			job.Spec.PodRef.Name = ""
 		}
 		job.Spec.Mode = sev1alpha1.PodMigrationJobMode(jc.Mode)
 		j.rf = c17ReservationFirst(jc.Mode, cfg.DefaultJobMode)
 		if jc.DeleteOpts {
 			job.Spec.DeleteOptions = &metav1.DeleteOptions{GracePeriodSeconds: ptr.To[int64](7)}
 		}
-		if jc.TTL > 0 {
+		if jc.TTLSet {
 			job.Spec.TTL = &metav1.Duration{Duration: jc.TTL}
 		}
+		job.Annotations = map[string]string{}
 		if jc.CreatedBy {
-			job.Annotations = map[string]string{AnnotationJobCreatedBy: "reconciler-1"}
+			job.Annotations[AnnotationJobCreatedBy] = "reconciler-1"
+		}
+		if jc.EvictAnnot {
+			job.Annotations[evictor.AnnotationEvictReason] = "node n1 is overutilized"
+			job.Annotations[evictor.AnnotationEvictTrigger] = "LowNodeLoad"
+		}
+		if jc.TemplateName != "" {
+			job.Spec.ReservationOptions = &sev1alpha1.PodMigrateReservationOptions{Template: &sev1alpha1.ReservationTemplateSpec{
+				ObjectMeta: metav1.ObjectMeta{Name: jc.TemplateName, Labels: map[string]string{"team": "a"}}}}
 		}
 		if jc.UserRes != "" {
 			// the user's Reservation exists before the job; it is built the way the controller would build one
 			// (owners of the pod, allocate-once) but carries no reservation-order label and its own uid
 			ur := &c17Res{name: w.resName(j), uid: types.UID(w.resName(j) + "-uid"), state: c17ResPending,
 				meta: metav1.ObjectMeta{Name: w.resName(j), Labels: map[string]string{"app": "user"}},
+				msg:  "0/3 nodes are available",
 				spec: sev1alpha1.ReservationSpec{AllocateOnce: ptr.To(true), Owners: reservation.GenerateReserveResourceOwners(pod),
 					Template: &corev1.PodTemplateSpec{ObjectMeta: metav1.ObjectMeta{Labels: map[string]string{"app": jc.PodName}}, Spec: *pod.Spec.DeepCopy()}}}
 			ur.spec.Template.Spec.NodeName = ""
@@ -588,9 +671,19 @@ func c17NewWorld(c *kit.Case, cfg *c17Cfg, faultAt int, kind c17Fault) *c17World
 				if !jc.PendingPod {
 					ur.state, ur.touched, ur.node = c17ResScheduled, true, jc.PodNode
 				}
+			case "bound-other":
+				ur.state, ur.touched, ur.node = c17ResBound, true, w.ring(jc.PodNode, 1)
+				ur.bound = &corev1.ObjectReference{Namespace: "default", Name: jc.PodName + "-y", UID: types.UID(jc.PodName + "-y1")}
+			case "expired":
+				ur.state, ur.touched = c17ResExpired, true
 			}
-			if err := w.store.Create(w.ctx, ur.render()); err != nil {
-				c.Harness("create user reservation: %v", err)
+			if jc.UserResLabel {
+				ur.meta.Labels[extension.LabelReservationOrder] = "1700000000000"
+			}
+			if jc.UserResInit != "missing" { // "missing": the reference points at a Reservation that does not exist
+				if err := w.store.Create(w.ctx, ur.render()); err != nil {
+					c.Harness("create user reservation: %v", err)
+				}
 			}
 			ref := &corev1.ObjectReference{Kind: "Reservation", APIVersion: sev1alpha1.GroupVersion.String(), Name: ur.name}
 			if jc.UserRes == "name-uid" {
@@ -601,10 +694,17 @@ func c17NewWorld(c *kit.Case, cfg *c17Cfg, faultAt int, kind c17Fault) *c17World
 		if err := w.store.Create(w.ctx, job); err != nil {
 			c.Harness("create job: %v", err)
 		}
+		if jc.InitPending { // somebody (the creator) has already set status.phase=Pending
+			job.Status.Phase = sev1alpha1.PodMigrationJobPending
+			if err := w.store.Status().Update(w.ctx, job); err != nil {
+				c.Harness("set initial phase: %v", err)
+			}
+		}
 		got := w.storedJob(j)
-		if !got.CreationTimestamp.Time.Equal(c17T0) || got.UID != j.uid {
+		if !got.CreationTimestamp.Time.Equal(j.created) || got.UID != j.uid {
 			c.Harness("fake client did not keep creationTimestamp/uid: %v %v", got.CreationTimestamp, got.UID)
 		}
+		j.lastPhase = got.Status.Phase
 		w.jobs = append(w.jobs, j)
 	}
 	w.restart()
@@ -623,6 +723,16 @@ func (w *c17World) makePod(jc *c17JobCfg, node string, pending bool) *corev1.Pod
 		Spec: corev1.PodSpec{SchedulerName: "koord-scheduler", NodeName: node,
 			Containers: []corev1.Container{{Name: "main", Image: "img"}}},
 		Status: corev1.PodStatus{Phase: corev1.PodRunning},
+	}
+	if jc.BarePod {
+		pod.OwnerReferences = nil
+	}
+	if w.cfg.GracefulPods {
+		pod.Finalizers = []string{"verif.io/graceful-termination"} // stands for the kubelet's graceful termination
+	}
+	if w.cfg.PVCPods {
+		pod.Spec.Volumes = []corev1.Volume{{Name: "data", VolumeSource: corev1.VolumeSource{PersistentVolumeClaim: &corev1.PersistentVolumeClaimVolumeSource{ClaimName: "data-" + jc.PodName}}},
+			{Name: "tmp", VolumeSource: corev1.VolumeSource{EmptyDir: &corev1.EmptyDirVolumeSource{}}}}
 	}
 	switch {
 	case pending:
@@ -685,6 +795,9 @@ func (w *c17World) interpreter() reservation.Interpreter {
 func (w *c17World) resName(j *c17Job) string {
 	if j.cfg.UserRes != "" {
 		return "ures-" + j.cfg.Name
+	}
+	if j.cfg.TemplateName != "" {
+		return j.cfg.TemplateName
 	}
 	return string(j.uid)
 }
@@ -783,19 +896,43 @@ func (w *c17World) write(desc string) c17Fault {
 	w.writes++
 	w.writeLog = append(w.writeLog, desc)
 	prevEvict := len(w.stepWrites) > 0 && strings.HasPrefix(w.stepWrites[len(w.stepWrites)-1], "Evict ") && strings.HasSuffix(w.stepWrites[len(w.stepWrites)-1], "ok")
-	if w.writes == w.faultAt {
-		w.faultHit = true
-		w.faultDesc = desc
-		w.faultAfterEvict = prevEvict
-		w.stepWrites = append(w.stepWrites, desc+" -> INJECTED "+w.faultKind.String())
-		return w.faultKind
+	if kind, ok := w.faults[w.writes]; ok {
+		if w.writes == w.faultAt {
+			w.faultHit = true
+			w.faultDesc = desc
+			w.faultAfterEvict = prevEvict
+		}
+		w.stepWrites = append(w.stepWrites, desc+" -> INJECTED "+kind.String())
+		return kind
 	}
 	w.stepWrites = append(w.stepWrites, desc)
 	return c17NoFault
 }
 
+// c17Injected: the error of an injected failure. The kinds an API server answers a write with when it is in
+// trouble (500, 504/timeout, 409 for updates, 429); never NotFound / AlreadyExists, which would be lies about
+// the state of the store.
 func c17Injected(desc string) error {
-	return apierrors.NewInternalError(fmt.Errorf("verif: injected API failure at %s", desc))
+	h := 0
+	for _, ch := range desc {
+		h = h*31 + int(ch)
+	}
+	if h < 0 {
+		h = -h
+	}
+	msg := fmt.Sprintf("verif: injected API failure at %s", desc)
+	switch h % 4 {
+	case 1:
+		return apierrors.NewServerTimeout(schema.GroupResource{Resource: "verif"}, msg, 1)
+	case 2:
+		if strings.HasPrefix(desc, "Update") {
+			return apierrors.NewConflict(schema.GroupResource{Resource: "verif"}, desc, fmt.Errorf("%s", msg))
+		}
+		return apierrors.NewTooManyRequests(msg, 1)
+	case 3:
+		return apierrors.NewTooManyRequests(msg, 1)
+	}
+	return apierrors.NewInternalError(fmt.Errorf("%s", msg))
 }
 
 // checkJobs enforces terminal stability on the STORED jobs; at step end it also checks TTL clean-up.
@@ -866,7 +1003,7 @@ func (w *c17World) newFaultyClient() client.WithWatch {
 		if _, isRes := obj.(*sev1alpha1.Reservation); isRes && kind == "Create" {
 			// real-interpreter unit: this is the interpreter's CreateReservation
 			for _, j := range w.jobs {
-				if j.cfg.UserRes == "" && string(j.uid) == obj.GetName() {
+				if j.cfg.UserRes == "" && w.resName(j) == obj.GetName() {
 					w.callGuard(j, "CreateReservation")
 					w.c.Count("create_reservation_calls", 1)
 				}
@@ -1112,7 +1249,7 @@ func (e *c17Evictor) issue(j *c17Job, pod *corev1.Pod, st c17Stamp) error {
 	w := e.w
 	// ---- at most once, fault-free only
 	j.evictCalls++
-	if w.faultAt == 0 && j.evictCalls > 1 {
+	if len(w.faults) == 0 && j.evictCalls > 1 {
 		w.fail("C17/evict/twice-fault-free", "job %s: Evict call #%d in a fault-free history; stamp %+v", j.cfg.Name, j.evictCalls, st)
 	}
 	if w.faultAt > 0 && j.evictCalls > 1 {
@@ -1125,6 +1262,16 @@ func (e *c17Evictor) issue(j *c17Job, pod *corev1.Pod, st c17Stamp) error {
 		return c17Injected(desc)
 	}
 	j.evictDone++
+	if w.cfg.GracefulPods {
+		// the eviction is a delete: the pod becomes a terminating object (deletionTimestamp set) that stays in
+		// the store until the environment finishes its termination (step pod-deleted / pod-replaced)
+		if cur := w.storedPod(j); cur != nil && cur.UID == pod.UID && cur.DeletionTimestamp == nil {
+			if err := w.store.Delete(w.ctx, cur); err != nil {
+				w.c.Harness("evict pod: %v", err)
+			}
+			w.c.Count("pods_left_terminating_by_evict", 1)
+		}
+	}
 	if f == c17FaultLost {
 		return c17Injected(desc)
 	}
@@ -1186,7 +1333,7 @@ func (w *c17World) apply(i int, s c17Step) bool {
 			break
 		}
 		node := ""
-		switch s.Arg {
+		switch strings.TrimSuffix(s.Arg, "-nocond") {
 		case "same":
 			if pod == nil || pod.Spec.NodeName == "" {
 				applied = false
@@ -1204,6 +1351,7 @@ func (w *c17World) apply(i int, s c17Step) bool {
 			break
 		}
 		r.state, r.touched, r.node = c17ResScheduled, true, node
+		r.nocond = strings.HasSuffix(s.Arg, "-nocond") && !w.real
 		resChanged = true
 	case "res-unsched":
 		if !r.live() || (r.state != c17ResPending && r.state != c17ResPendingUnsched) {
@@ -1277,18 +1425,14 @@ func (w *c17World) apply(i int, s c17Step) bool {
 			applied = false
 			break
 		}
-		if err := w.store.Delete(w.ctx, pod); err != nil {
-			w.c.Harness("delete pod: %v", err)
-		}
+		w.removePod(pod)
 	case "pod-replaced":
 		old := j.cfg.PodNode
 		if pod != nil {
 			if pod.Spec.NodeName != "" {
 				old = pod.Spec.NodeName
 			}
-			if err := w.store.Delete(w.ctx, pod); err != nil {
-				w.c.Harness("delete pod: %v", err)
-			}
+			w.removePod(pod)
 		}
 		node := ""
 		switch s.Arg {
@@ -1315,14 +1459,29 @@ func (w *c17World) apply(i int, s c17Step) bool {
 				applied = false
 				break
 			}
-			if target := c17T0.Add(j.cfg.TTL + time.Second); w.clk.Now().Before(target) {
+			if target := j.created.Add(j.cfg.TTL + time.Second); w.clk.Now().Before(target) {
 				d = target.Sub(w.clk.Now())
 			}
+		}
+		if s.Arg == "far" {
+			d = 49 * time.Hour
 		}
 		w.clk.Step(d)
 		note = fmt.Sprintf(" now=+%v", w.clk.Now().Sub(c17T0))
 	case "restart":
 		w.restart()
+	case "job-pause", "job-unpause":
+		// the user edits spec.paused: a write to the job by somebody else than the controller
+		cur := w.storedJob(j)
+		want := s.Kind == "job-pause"
+		if cur.Spec.Paused == want {
+			applied = false
+			break
+		}
+		cur.Spec.Paused = want
+		if err := w.store.Update(w.ctx, cur); err != nil {
+			w.c.Harness("pause/unpause: %v", err)
+		}
 	default:
 		w.c.Harness("unknown step %v", s)
 	}
@@ -1338,6 +1497,29 @@ func (w *c17World) apply(i int, s c17Step) bool {
 	}
 	w.checkJobs(false)
 	return applied
+}
+
+// removePod takes the pod object out of the store (a terminating pod with the grace finalizer included).
+func (w *c17World) removePod(pod *corev1.Pod) {
+	if pod.DeletionTimestamp == nil {
+		if err := w.store.Delete(w.ctx, pod); err != nil {
+			w.c.Harness("delete pod: %v", err)
+		}
+	}
+	cur := &corev1.Pod{}
+	if err := w.store.Get(w.ctx, client.ObjectKeyFromObject(pod), cur); err != nil {
+		if apierrors.IsNotFound(err) {
+			return
+		}
+		w.c.Harness("get pod: %v", err)
+	}
+	cur.Finalizers = nil
+	if err := w.store.Update(w.ctx, cur); err != nil {
+		w.c.Harness("finish pod termination: %v", err)
+	}
+	if err := w.store.Get(w.ctx, client.ObjectKeyFromObject(pod), cur); !apierrors.IsNotFound(err) {
+		w.c.Harness("pod still there after its finalizer was removed: %v", err)
+	}
 }
 
 func (w *c17World) schedulePod(pod *corev1.Pod, node string) {
@@ -1374,6 +1556,9 @@ func (w *c17World) gen(r *kit.Rand) c17Step {
 			add(40, "res-scheduled", "other")
 			if pod != nil && pod.Spec.NodeName != "" {
 				add(7, "res-scheduled", "same")
+			}
+			if !w.real {
+				add(4, "res-scheduled", kit.Pick(r, []string{"other-nocond", "other-nocond", "same-nocond"}))
 			}
 			add(6, "res-unsched-retry", "")
 			if res.need {
@@ -1424,7 +1609,13 @@ func (w *c17World) gen(r *kit.Rand) c17Step {
 	if j.cfg.TTL > 0 {
 		add(4, "clock", "past-ttl")
 	}
+	add(1, "clock", "far")
 	add(4, "restart", "")
+	if w.storedJob(j).Spec.Paused {
+		add(25, "job-unpause", "")
+	} else {
+		add(1, "job-pause", "")
+	}
 	ws := make([]int, len(cs))
 	for i := range cs {
 		ws[i] = cs[i].w
@@ -1478,8 +1669,11 @@ func c17RunCase(c *kit.Case, cfg *c17Cfg) {
 	base.direct = true
 	var script []c17Step
 	n := r.Range(6, 26-2*len(cfg.Jobs))
+	if cfg.LongHistory {
+		n = r.Range(30, 56)
+	}
 	for i := 0; i < n; i++ {
-		if i >= 6 && base.allSettled() {
+		if i >= 6 && base.allSettled() && !cfg.LongHistory {
 			break // every job is terminal and has been reconciled after that: nothing more can happen
 		}
 		s := base.gen(r)
@@ -1495,6 +1689,29 @@ func c17RunCase(c *kit.Case, cfg *c17Cfg) {
 	}
 	base.finish()
 	c.Count("histories_fault_free", 1)
+	c.Count(fmt.Sprintf("cases_with_%d_jobs", len(cfg.Jobs)), 1)
+	for _, on := range []struct {
+		name string
+		v    bool
+	}{{"graceful_pods", cfg.GracefulPods}, {"pvc_pods", cfg.PVCPods}, {"gate_DisablePVCReservation", cfg.DisablePVCGate}, {"long_history", cfg.LongHistory}} {
+		if on.v {
+			c.Count("cases_"+on.name, 1)
+		}
+	}
+	for _, j := range cfg.Jobs {
+		for _, on := range []struct {
+			name string
+			v    bool
+		}{{"shared_pod", j.SharedPod}, {"bare_pod", j.BarePod}, {"ttl_explicit_zero", j.TTLSet && j.TTL == 0}, {"ttl_1s", j.TTL == time.Second},
+			{"created_in_past", j.CreatedAt < 0}, {"created_ahead_of_clock", j.CreatedAt > 0}, {"podref_uid_correct", j.PodRefUID == "correct"},
+			{"podref_uid_stale", j.PodRefUID == "stale"}, {"invalid_podref", j.InvalidRef}, {"paused_at_start", j.Paused},
+			{"initial_phase_pending", j.InitPending}, {"custom_template_name", j.TemplateName != ""}, {"user_reservation_missing", j.UserResInit == "missing"},
+			{"user_reservation_with_order_label", j.UserResLabel}} {
+			if on.v {
+				c.Count("jobs_"+on.name, 1)
+			}
+		}
+	}
 	c.Count("cases_default_job_mode_"+map[string]string{"": "empty"}[cfg.DefaultJobMode]+cfg.DefaultJobMode, 1)
 	for _, j := range base.jobs {
 		switch {
@@ -1570,11 +1787,46 @@ func c17RunCase(c *kit.Case, cfg *c17Cfg) {
 			}
 		}
 	}
+
+	// ---- a sample of multi-fault variants ("failures injected at any call"): pairs of nearby faults and
+	// short outages (three consecutive writes fail); the second and later indices count the writes of the
+	// variant itself
+	if base.writes >= 2 {
+		kinds := []c17Fault{c17FaultFail, c17FaultLost}
+		for m := 0; m < 6; m++ {
+			k1 := r.Range(1, base.writes)
+			faults := map[int]c17Fault{k1: kit.Pick(r, kinds)}
+			if m < 4 {
+				faults[k1+r.Range(1, 6)] = kit.Pick(r, kinds)
+			} else {
+				faults[k1+1], faults[k1+2] = c17FaultFail, c17FaultFail
+				faults[k1] = c17FaultFail
+			}
+			v := c17NewWorldFaults(c, cfg, faults)
+			aborted := c17Variant(func() {
+				for i, s := range script {
+					v.apply(i, s)
+				}
+				v.finish()
+			})
+			if aborted {
+				c.Count("faulty_histories_with_violation", 1)
+			}
+			if !v.faultHit || v.faultDesc != base.writeLog[k1-1] {
+				c.Harness("variant %q did not reproduce the fault-free prefix: hit=%v at %q, expected %q", v.label, v.faultHit, v.faultDesc, base.writeLog[k1-1])
+			}
+			c.Evals(1)
+			c.Count("multi_fault_histories", 1)
+			if cfg.Real {
+				c.Count("real_interpreter_histories", 1)
+			}
+		}
+	}
 }
 
 func TestVerifC17Reconcile(t *testing.T) {
 	kit.Run(t, kit.Config{Property: "C17", Unit: "reconcile", Quick: 480, Thorough: 20000,
-		Rule: "1-2 jobs, spec.mode in {empty 38%, ReservationFirst 50%, EvictDirectly 12%} and args.DefaultJobMode in {empty 20%, ReservationFirst 50%, EvictDirectly 30%} drawn independently (reservation-first by the documented rule: explicit mode wins, empty falls back to the default, empty default = ReservationFirst; the ordering clause is asserted for those jobs only), spec/args delete options set or not (TTL unset/15s/1h; 12% pending-pod mode; 25% with a scripted preemption interpreter), one fault-free history of 8-30 steps generated adaptively from {reconcile, reservation -> pending+unschedulable / scheduled(same|other node) / unschedulable / expired / deleted / bound(this|other pod), pod deleted / replaced by same name new UID (pending|old node|reservation node|third node) / scheduled, clock +5s / past TTL, controller restart}, ending with 2 reconciles per job; then the same script is re-executed with every single write k=1..n failing (nothing applied) and with every single write k applied-but-error (lost response); evaluations = executed histories (1+2n per case); non-trivial = the fault-free history evicted, reached a terminal phase and reconciled after it; distinct = (jobs, TTL, mode, final phase/reason/status, #evict calls, final reservation state, fault kind, class of the failed write, fault right after evict, reconciled after terminal)"},
+		Rule: "1-3 jobs (15% of the extra jobs target job-0's pod), spec.mode in {empty 38%, ReservationFirst 50%, EvictDirectly 12%} and args.DefaultJobMode in {empty 20%, ReservationFirst 50%, EvictDirectly 30%} drawn independently (reservation-first by the documented rule: explicit mode wins, empty falls back to the default, empty default = ReservationFirst; the ordering clause is asserted for those jobs only), spec/args delete options set or not (TTL unset/explicit 0/1s/15s/1h; creationTimestamp at/before/ahead of the clock; podRef.uid empty/correct/stale, 3% podRef without name; 8% paused at start, user pause/unpause events; 15% initial phase Pending; 15% user-named reservation template; 10% bare pods, 50% graceful (terminating) pods, 20% PVC pods, gate DisablePVCReservation 20%; 5% long histories of 34-62 steps; 10% pending-pod mode; 25% with a scripted preemption interpreter), one fault-free history of 8-30 steps generated adaptively from {reconcile, reservation -> pending+unschedulable / scheduled(same|other node) / unschedulable / expired / deleted / bound(this|other pod), pod deleted / replaced by same name new UID (pending|old node|reservation node|third node) / scheduled, clock +5s / past TTL, controller restart}, ending with 2 reconciles per job; then the same script is re-executed with every single write k=1..n failing (nothing applied) and with every single write k applied-but-error (lost response), plus 6 sampled multi-fault variants (4 fault pairs, 2 three-write outages); evaluations = executed histories (1+2n+6 per case); non-trivial = the fault-free history evicted, reached a terminal phase and reconciled after it; distinct = (jobs, TTL, mode, final phase/reason/status, #evict calls, final reservation state, fault kind, class of the failed write, fault right after evict, reconciled after terminal)"},
 		func(c *kit.Case) { c17RunCase(c, c17GenCfg(c.R)) })
 }
 
